@@ -138,6 +138,7 @@ func (c *Ctx) Violate(kind, what string, input interface{}) {
 // and the name of a function `fn : list T -> list nat` returning the indices of
 // the cases on which model and implementation disagree.
 func (c *Ctx) SetCases(imports, fn string) {
+	c.flushCases() // a run may produce several groups of cases, each with its own check function
 	c.caseHdr = imports
 	c.caseFn = fn
 }
